@@ -442,6 +442,10 @@ pub enum Act {
     StopWorker(usize, bool),
     SetReady(usize, usize, Vec<u8>),
     SetCreate(usize, usize, Vec<u8>),
+    /// append one answer to the readiness script of (worker, token): 0 pending, 1 ready, 2 error
+    PushReady(usize, usize, u8),
+    /// append one answer to the factory script of (worker, token): 0 one pending poll
+    PushCreate(usize, usize, u8),
     DropStopHandle(usize),
 }
 
@@ -496,6 +500,7 @@ struct Env {
     max_turns: usize,
     faults: Vec<usize>,
     cmd_rx: UnboundedReceiver<ServerCommand>,
+    svc_seen: usize,
 }
 
 pub struct Sim {
@@ -547,6 +552,10 @@ pub struct Snap {
     pub anchors_missed: usize,
     pub replaced: Vec<usize>,
     pub skipped: Vec<String>,
+    /// service-side events since the previous snapshot: (kind, worker, token, value) with value = answer for
+    /// "ready", connection id for "call", 1/0 for "create"
+    pub svc_new: Vec<(String, usize, usize, i64)>,
+    pub scripts_empty: bool,
 }
 
 fn interest_name(i: &WakerInterest) -> String {
@@ -704,6 +713,12 @@ impl Env {
                     .unwrap()
                     .ready_script
                     .insert((*w, *t), script.iter().cloned().collect());
+            }
+            Act::PushReady(w, t, a) => {
+                self.sh.lock().unwrap().ready_script.entry((*w, *t)).or_default().push_back(*a);
+            }
+            Act::PushCreate(w, t, a) => {
+                self.sh.lock().unwrap().create_script.entry((*w, *t)).or_default().push_back(*a);
             }
             Act::SetCreate(w, t, script) => {
                 self.sh
@@ -957,6 +972,7 @@ impl Sim {
             max_turns: 4 * cfg.workers + 8,
             faults: vec![],
             cmd_rx,
+            svc_seen: 0,
         };
         let mut handles = vec![];
         for idx in 0..cfg.workers {
@@ -1171,6 +1187,20 @@ impl Sim {
             .collect();
         s.faults = e.faults.clone();
         s.points = std::mem::take(&mut e.points);
+        {
+            let sh = e.sh.lock().unwrap();
+            s.svc_new = sh.log[e.svc_seen.min(sh.log.len())..]
+                .iter()
+                .map(|ev| match ev {
+                    SvcEvent::Ready { worker, token, ans, .. } => ("ready".to_string(), *worker, *token, *ans as i64),
+                    SvcEvent::Call { worker, token, peer, .. } => ("call".to_string(), *worker, *token, e.cid_of_peer(peer)),
+                    SvcEvent::Create { worker, token, ok } => ("create".to_string(), *worker, *token, *ok as i64),
+                })
+                .collect();
+            s.scripts_empty = sh.ready_script.values().all(|q| q.is_empty())
+                && sh.create_script.values().all(|q| q.is_empty());
+        }
+        e.svc_seen += s.svc_new.len();
         s.replaced = e.replaced.clone();
         s.skipped = e.skipped.clone();
         s
